@@ -87,7 +87,7 @@ Definition outcome_matches (st : pstate) (mrq : mrequest) (o : routcome) (h : ho
       herr_eqb er er' && (match er, names with
                           | EMultiple, Some ns =>
                               if no_flink (m_feats mrq) then
-                                match multi_names (env_of (p_fws st)) (p_groups st) mrq with
+                                match multi_names (env_of (fun x => x) (p_fws st)) (p_groups st) mrq with
                                 | Some ms => set_eqb ms ns | None => false end
                               else true
                           | _, _ => true end)
@@ -101,7 +101,7 @@ Definition last_req (ops : list op) : mrequest :=
 (* faithful model: the process model run on the whole operation prefix; the observation of its last request *)
 Definition chk_hist (c : (pstate * list op) * hobs) : bool :=
   match c with ((st, ops), h) =>
-    let r := run_history (fun _ => id_walk) st ops in
+    let r := run_history (fun x => x) (fun _ => id_walk) st ops in
     outcome_matches (fst r) (last_req ops) (last (snd r) (RRejected RDuplicate)) h
   end.
 (* the two recorded deviations repaired: every feature resolved with the API links only, the duplicate check by identity *)
@@ -133,7 +133,7 @@ Definition outcome_fixed (e : env) (u : list xclass) (mrq : mrequest) : routcome
 Definition chk_fixed (c : (pstate * list op) * hobs) : bool :=
   match c with ((st, ops), h) =>
     let s := final_state st ops in
-    outcome_matches s (last_req ops) (outcome_fixed (env_of (p_fws s)) (p_groups s) (last_req ops)) h
+    outcome_matches s (last_req ops) (outcome_fixed (env_of (fun x => x) (p_fws s)) (p_groups s) (last_req ops)) h
   end.
 (* classification: the request lies in one of the two decidable deviation domains *)
 Definition in_kf_link (c : (pstate * list op) * hobs) : bool :=
@@ -801,10 +801,17 @@ def cq_feat(f: dict, hid: int, v: int) -> str:
 
 def cq_req(o: dict, hid: int, v: int) -> str:
     from lib.vlib import cq_list
-    api = [] if o["api"] is None else [fw_id(x) for x in (o["api"].get("names") or o["api"].get("classes") or [])]
+    # API entries by kind (str -> AName, class object -> AClass); class names are unique in this family and a class is numbered
+    # like its name (nm = identity function), see harness/c10_twin.py for same-named classes
+    if o["api"] is None:
+        api = []
+    elif "names" in o["api"]:
+        api = [f"AName {fw_id(x)}%nat" for x in o["api"]["names"]]
+    else:
+        api = [f"AClass {fw_id(x)}%nat" for x in o["api"]["classes"]]
     col = "None" if o["col"] is None else f"(Some ({nl(o['col']['en'])}, {nl(o['col']['dis'])}))"
     links = "None" if o["links"] is None else "(Some " + cq_list(f"({cq_idx(l[0])}, {cq_idx(l[1])})" for l in o["links"]) + ")"
-    return (f"{{| m_api := {nl(api)}; m_collector := {col}; m_links := {links}; "
+    return (f"{{| m_api := {cq_list(api)}; m_collector := {col}; m_links := {links}; "
             f"m_feats := {cq_list(cq_feat(f, hid, v) for f in o['feats'])} |}}")
 
 
@@ -882,7 +889,7 @@ def model_says(term: str) -> str:
     from lib import vlib
     try:
         out = vlib.coq_eval("C10", "hsays", REQ, EXTRA + f"\nDefinition the_case : {CASE_TY} := {term}.\n"
-                            "Eval vm_compute in (let '((st, ops), _) := the_case in last (snd (run_history (fun _ => id_walk) st ops)) "
+                            "Eval vm_compute in (let '((st, ops), _) := the_case in last (snd (run_history (fun x => x) (fun _ => id_walk) st ops)) "
                             "(RRejected RDuplicate)).")
         m = re.search(r"=\s*(.*?)\s*:\s*routcome", out, re.S)
         return " ".join(m.group(1).split()) if m else out[-200:]
